@@ -80,7 +80,7 @@ Lemma w_merged_is_merged : exists tm dm,
 Proof. do 2 eexists. split; vm_compute; reflexivity. Qed.
 
 Lemma w_hygienic fl : hygienic (w_merged fl) = true.
-Proof. destruct fl as [[] [] []]; vm_compute; reflexivity. Qed.
+Proof. destruct fl as [[] [] [] []]; vm_compute; reflexivity. Qed.
 
 (* the two operands of the UNION ALL have the same cache key and different meanings *)
 Lemma w_keys_collide :
